@@ -202,6 +202,46 @@ theorem colComparators_lawful : ∀ (specs : List ColSpec) (i : Nat), ∀ c ∈ 
 theorem cmpRows_lawful (specs : List ColSpec) : Lawful (cmpRows specs) :=
   cmpLex_lawful _ (colComparators_lawful specs 0)
 
+/-! ## the per-type arms of the positional row comparator
+
+`compareRowsFuncOfIndexAscending` / `compareRowsFuncOfIndexDescending` (compare.go:229-395) have one
+arm per physical / logical type and direction. An arm decides two things: how it reads the bits of the
+key (`int32()` or `uint32()`, `int64()` or `uint64()`) and whether it negates the result. The mirror
+below is the 32-bit arm with both decisions as parameters (the 64-bit arms are the same with 64). The
+spec side is the sort order the format defines for the logical type (LogicalTypes.md: signed for
+INT_8..INT_64, DATE, TIME, TIMESTAMP and DECIMAL, unsigned for UINT_8..UINT_64) on the numbers the
+bits denote. -/
+
+/-- mirror: one arm, `signed` = the accessor it reads the key with, `negate` = the leading minus -/
+def armCmp32 (signed negate : Bool) (a b : BitVec 32) : Int :=
+  let c := if signed then cmpInt a.toInt b.toInt else cmpInt (a.toNat : Int) (b.toNat : Int)
+  if negate then - c else c
+
+/-- spec: the number a 32-bit key denotes under its logical type -/
+def denote32 (unsignedType : Bool) (a : BitVec 32) : Int := if unsignedType then (a.toNat : Int) else a.toInt
+
+/-- the arms of compare.go as written: accessor by signedness of the type, minus sign in the descending twin -/
+theorem armCmp32_is_declared_order (unsignedType desc : Bool) (a b : BitVec 32) :
+    armCmp32 (!unsignedType) desc a b =
+      (if desc then descending cmpInt else cmpInt) (denote32 unsignedType a) (denote32 unsignedType b) := by
+  cases unsignedType <;> cases desc <;> simp [armCmp32, denote32, descending]
+
+/-- an arm that reads a signed type (DATE) with the unsigned accessor puts every negative key after
+    every non-negative one -/
+theorem arm_read_unsigned_misorders_negative_keys :
+    armCmp32 false false (BitVec.ofInt 32 (-1)) (BitVec.ofInt 32 1) = 1 ∧
+    cmpInt (denote32 false (BitVec.ofInt 32 (-1))) (denote32 false (BitVec.ofInt 32 1)) = -1 := by decide
+
+/-- a descending arm without its minus sign is the ascending arm -/
+theorem descending_arm_without_negation_is_ascending (signed : Bool) (a b : BitVec 32) :
+    armCmp32 signed false a b = - armCmp32 signed true a b := by
+  simp [armCmp32]
+
+theorem descending_arm_without_negation_misorders :
+    armCmp32 true false (BitVec.ofInt 32 1) (BitVec.ofInt 32 2) = -1 ∧
+    descending cmpInt (denote32 false (BitVec.ofInt 32 1)) (denote32 false (BitVec.ofInt 32 2)) = 1 := by decide
+
+
 /-! ## ranks: a lawful comparator on a finite list is the order of integer ranks -/
 
 def rankIn {α : Type} (c : α → α → Int) (L : List α) (x : α) : Nat := L.countP (fun y => decide (c y x < 0))
